@@ -35,6 +35,7 @@ CONFIGS = [
     ("upload", "c2d", None, None),
 ]
 THRESHOLD = 2048
+QUICK_SHARDS = 6
 
 
 def make_spec():
@@ -337,13 +338,15 @@ def run(ctx):
     i = 0
     if not ctx.thorough:
         for n in range(0, 3101):
-            if n > 400 and (n + ctx.seed) % 2:
-                continue            # quick: every second length above 400 (parity chosen by the seed); thorough: all
-            cfg = CONFIGS[n % len(CONFIGS)][0]
-            frag = FRAGS[(n // len(CONFIGS)) % len(FRAGS)]
+            if not ctx.mine(n):
+                continue
+            # every length; the configuration / fragmentation / format assigned to a length rotates with the seed
+            k = n + 5 * ctx.seed
+            cfg = CONFIGS[k % len(CONFIGS)][0]
+            frag = FRAGS[(k // len(CONFIGS)) % len(FRAGS)]
             if frag == "1" and n > 400 and n % 9:
                 frag = "1024"       # byte-by-byte delivery of long payloads: sampled
-            one_case(ctx, {"n": n, "config": cfg, "frag": frag, "fmt": n})
+            one_case(ctx, {"n": n, "config": cfg, "frag": frag, "fmt": k})
             if ctx.enough():
                 return
         return
